@@ -101,6 +101,7 @@ def server_cfg():
     m = D.std_methods()
     m.append(D.M('fail_unreg', [D.P('a', d=True)], D.err_body(cls='JsonRpcError', code=777, message='unregistered', data=[1])))
     m.append(D.M('fail_zero', [D.P('a', d=True)], D.err_body(cls='UserErrorZero', code=0, message='Zero')))
+    m.append(D.M('fail_null_data', [D.P('a', d=True)], D.err_body(cls='UserError2001', code=2001, message='null data', data=None)))
     m.append(D.M('fail_reserved', [D.P('a', d=True)], D.err_body(cls='JsonRpcError', code=-32050, message='reserved, unregistered', data={'x': 1})))
     m.append(D.M('fail_reworded', [D.P('a', d=True)], D.err_body(cls='InvalidParamsError', code=-32602, message='age must be non-negative')))
     return D.cfg(methods=m)
@@ -174,7 +175,7 @@ def generate(tier, rng):
              ('echo', (), {}), ('echo', (1, 2, 3), {}), ('noargs', (), {}), ('noargs', (1,), {}), ('kwonly', (), {'k': 1}),
              ('ctxm', (5,), {}), ('ctxm', (), {'ctx': 1}), ('fail_rpc', (), {}), ('fail_unreg', (), {}), ('fail_zero', (), {}),
              ('fail_exc', (), {}), ('nosuch', (), {}), ('sub.null', (), {}), ('view.vm', (3,), {}),
-             ('fail_reserved', (), {}), ('fail_reworded', (), {}),
+             ('fail_reserved', (), {}), ('fail_reworded', (), {}), ('fail_null_data', (), {}),
              ('echo', ({'b': 1},), {}), ('echo', ({'a': 7},), {}), ('echo', ({},), {}), ('deco_xy', (1,), {}), ('deco_a', (), {'a': 2})]
     clients = [{'strict': True}, {'strict': False}, {'strict': True, 'error_cls': U.errclass_json(U.ClientBaseError)}]
     for (m, args, kwargs) in calls:
@@ -520,7 +521,7 @@ def _direct(c, it):
         p = []
     if m in D.REF and not D.binds(m, p if p else []):
         return 'code', -32602
-    if m not in D.REF and m not in ('fail_unreg', 'fail_zero', 'fail_reserved', 'fail_reworded'):
+    if m not in D.REF and m not in ('fail_unreg', 'fail_zero', 'fail_reserved', 'fail_reworded', 'fail_null_data'):
         return None, None
     b = cfgm[m]['body']
     if b['k'] == 'const':
